@@ -101,8 +101,31 @@
   (for i 0 k (set d @{:arity 0 :bytecode @[['ldn 0] ['ret 0]] :closures @[d]}))
   (marshal (asm d)))
 
+# PEG combinators: kind is "<special name>#<index>" into harness/C19/pegtemplates.janet
+(def here (let [f (dyn :current-file)] (string/slice f 0 (- (length f) (length "sweep.janet")))))
+(defn peg-use []
+  (def T (dofile (string here "pegtemplates.janet")))
+  (def [name idx] (string/split "#" kind))
+  (def f (get (get ((T 'uses) :value) name) (scan-number idx)))
+  (unless f (error (string "no such peg use " kind)))
+  [name f ((T 'sub-ok) :value) ((T 'sub-fail) :value)])
+
 (def consumers
-  @{"unmarshal-defs" (fn [n] (unmarshal ((derive-image def-nest) n)) nil)
+  @{"peg-comb" (fn [n]
+                 # recursive grammar whose recursion passes through the combinator; the same level also uses the
+                 # combinator 4x with a succeeding and 4x with a failing sub-rule, so that a path that gives back more
+                 # depth budget than it took makes the net cost per level negative (the guard then never fires)
+                 (def [name f ok fail] (peg-use))
+                 (def oks (if (= name "error") [] (seq [_ :range [0 4]] ~(? ,(f ok)))))
+                 (def fails (seq [_ :range [0 4]] ~(? ,(f fail))))
+                 (def g (peg/compile {:main ~(+ (* "(" ,;oks ,;fails (? ,(f :main)) (? ")")) "")}))
+                 (peg/match g (string (repeat-str "(" n) (repeat-str ")" n))) nil)
+    "peg-compile-comb" (fn [n]
+                         (def [name f ok fail] (peg-use))
+                         (var x "a")
+                         (for i 0 n (set x (f x)))
+                         (peg/compile x) nil)
+    "unmarshal-defs" (fn [n] (unmarshal ((derive-image def-nest) n)) nil)
     "unmarshal-abstract" (fn [n] (unmarshal ((derive-image peg-nest) n)) nil)
     "compile-destructure-head" (fn [n]
                                  (def pat (build "btuple" n 'x))
